@@ -1953,8 +1953,69 @@ impl Fs {
             return Err("No such file or directory");
         }
 
+        // A rename can only be flushed together with the pending ops that
+        // brought its source name into existence (the creation of the file,
+        // or earlier renames onto that name) when those belong to another
+        // directory. Otherwise the persisted inode is not there to be moved
+        // (the file is lost although its new entry is durable) and the stale
+        // creation later resurrects the old name. Ops that established the
+        // *destination* name are deliberately not taken along: flushing an
+        // older rename onto the same name would durably remove an entry of a
+        // directory that was never synced.
+        let mut dependency = vec![false; self.pending.len()];
+        let mut work: Vec<(PathBuf, usize)> = self
+            .pending
+            .iter()
+            .enumerate()
+            .filter_map(|(i, op)| match op {
+                PendingOp::Rename { from, to }
+                    if from.parent() == Some(path) || to.parent() == Some(path) =>
+                {
+                    Some((from.clone(), i))
+                }
+                _ => None,
+            })
+            .collect();
+        while let Some((name, before)) = work.pop() {
+            for i in (0..before).rev() {
+                match &self.pending[i] {
+                    PendingOp::CreateFile { path: p, .. }
+                    | PendingOp::CreateDir { path: p, .. }
+                    | PendingOp::CreateSymlink { path: p, .. }
+                    | PendingOp::CreateHardLink { path: p, .. }
+                        if p == &name =>
+                    {
+                        dependency[i] = true;
+                        break;
+                    }
+                    PendingOp::Rename { from, to } if to == &name => {
+                        if !dependency[i] {
+                            dependency[i] = true;
+                            work.push((from.clone(), i));
+                        }
+                        break;
+                    }
+                    // the name was vacated here: anything earlier belongs to
+                    // a different object
+                    PendingOp::RemoveFile { path: p } | PendingOp::RemoveDir { path: p }
+                        if p == &name =>
+                    {
+                        break;
+                    }
+                    PendingOp::Rename { from, .. } if from == &name => break,
+                    _ => {}
+                }
+            }
+        }
+        let mut index = 0;
+
         // Flush pending ops that affect this directory's entries
         let (to_flush, to_keep): (Vec<_>, Vec<_>) = self.pending.drain(..).partition(|op| {
+            let is_dependency = dependency[index];
+            index += 1;
+            if is_dependency {
+                return true;
+            }
             match op {
                 // Directory's own creation
                 PendingOp::CreateDir { path: p, .. } if p == path => true,
